@@ -192,8 +192,8 @@ def gen_popcounts(rng, tier):
         for dens in ([0.5] if q else [0.1, 0.5, 0.9, 1.0]):
             bits = [i for i in range(size) if rng.random() < dens]
             ln.append(("hwarr %d %d %s" % (size, len(bits), " ".join(map(str, bits)))).rstrip())
-    # a few hundred per execution
-    return [("popcounts", ln[i:i + 400]) for i in range(0, len(ln), 400)], len(ln)
+    # 25 calls per execution (short replay files)
+    return [("popcounts", ln[i:i + 25]) for i in range(0, len(ln), 25)], len(ln)
 
 
 # --------------------------------------------------------------------------------------------------- solver
